@@ -19,6 +19,11 @@ NUM_HDR = 47
 H_IDX = {'num_vars': 14, 'num_algebraic_cons': 15, 'num_objs': 16, 'num_logical_cons': 19, 'num_funcs': 32, 'ce0': 42}
 
 
+# notifications that announce a count, and which argument it is
+COUNT_ARG = {'bce': 1, 'linobj': 1, 'lincon': 1, 'isuf': 2, 'dsuf': 2, 'bpl': 0, 'bcall': 1, 'bva': 1, 'bsum': 0, 'bcnt': 0,
+             'bno': 0, 'bsno': 0, 'bil': 1, 'bpw': 1, 'col': 0}
+
+
 class Oracle:
     """Independent re-implementation of the property predicate over the event tokens of one run.
     Returns None if consistent, else a short reason."""
@@ -52,6 +57,8 @@ class Oracle:
                 return 'event-after-end:' + tok[:12]
             name, _, rest = tok.partition(':')
             a = rest.split(',') if rest else []
+            if name in COUNT_ARG and int(a[COUNT_ARG[name]]) < 0:
+                return 'negative-count:' + name
             closed_top()
             top = stack[-1] if stack else None
             if top and top[0] in ('terms', 'cols', 'suf') and name not in {'terms': ('term',), 'cols': ('col',), 'suf': ('sv', 'sd')}[top[0]]:
@@ -184,6 +191,9 @@ def build_cases(ck, T, cov):
         if len(b) < 20000:
             cases.append((0, -1, b, 'repo-data'))
             cases.append((1, -1, b, 'repo-data'))
+    for mode, d, tag in G.hostile_count_family(T):
+        cases.append((0, -1, d, tag))
+        cov[tag] = cov.get(tag, 0) + 1
     modes = ['text', 'text', 'bin', 'binswap']
     for i in range(n_valid):
         mode = modes[i % 4]
@@ -204,6 +214,18 @@ def build_cases(ck, T, cov):
             if rng.random() < 0.15:
                 mu = G.mutate(rng, mu, [], min(hlen, len(mu)), mode, m, cov)
             cases.append((rng.choice([0, 1]), -1 if rng.random() < 0.9 else rng.randrange(0, 3), mu, 'mut-' + mode))
+    # byte-order twins: the same random problem written native and byte-swapped (same generator state)
+    twins = []
+    for i in range(60 if ck.tier == 'quick' else 600):
+        st = rng.getstate()
+        d1, _, _, _ = G.gen_valid(rng, T, 'bin', {})
+        rng.setstate(st)
+        d2, _, _, _ = G.gen_valid(rng, T, 'binswap', {})
+        fl = rng.choice([0, 1])
+        twins.append((len(cases), len(cases) + 1))
+        cases.append((fl, -1, d1, 'twin-native'))
+        cases.append((fl, -1, d2, 'twin-swapped'))
+    build_cases.twins = twins
     return cases
 
 
@@ -366,7 +388,7 @@ def run(ck):
             hist_out['abort:' + kind] = hist_out.get('abort:' + kind, 0) + 1
             where = where_of_abort(aborts[i])
             if kind in ('alloc-too-big', 'asan-allocator', 'asan-requested', 'asan-out-of-memory', 'asan-allocation-size-too-big'):
-                hist_out['abort:alloc-too-big(asan-artifact)'] = hist_out.get('abort:alloc-too-big(asan-artifact)', 0) + 1
+                pass
                 # ASan turns a failing `operator new` (allocation by a hostile count, > max_allocation_size_mb)
                 # into a fatal report; without ASan this is std::bad_alloc, i.e. an exception: not a violation
                 continue
@@ -435,6 +457,27 @@ def run(ck):
                              replay_obj(i, {'impl': il[:1500], 'model': ml[:1500], 'correspondence': 'drv_c02 vs h_nlread'}), found_input=False)
         if i % 997 == 0:
             ck.sample((il[:300]))
+    # byte-order twins: identical notifications from the real reader except the header's arith_kind
+    n_twins = 0
+    for a, b in getattr(build_cases, 'twins', []):
+        la, lb = impl.get(a), impl.get(b)
+        if la is None or lb is None:
+            continue
+        def norm(l):
+            pr = l.split(' | ')
+            toks = pr[1].split()
+            if toks and toks[0].startswith('H:'):
+                h = toks[0][2:].split(',')
+                h[12] = '*'
+                toks[0] = 'H:' + ','.join(h)
+            out = pr[0].split(' ', 1)[1]
+            out = re.sub(r'^berr:(\w+):\d+$', r'berr:\1', out)
+            return out + ' ' + ' '.join(toks)
+        n_twins += 1
+        if norm(la) != norm(lb):
+            ck.add_violation('swapped-vs-native', 'the byte-swapped and the native encoding of the same problem give different notifications',
+                             replay_obj(a, {'native': la[:1200], 'swapped': lb[:1200], 'swapped_case_line': 'case %d %d %d %s' % (b, cases[b][0], cases[b][1], cases[b][2].hex())}))
+    ck.cov['byte_order_twins_compared'] = n_twins
     # strtod stream
     bad_strtod = 0
     for k, s in enumerate(strtods):
@@ -471,7 +514,7 @@ def run(ck):
                                'harness/h_nlread.cc recording handler + error-class mapping; checks/c02.py oracle and comparison']
 
 
-EXPECT_THEOREMS = 8
+EXPECT_THEOREMS = 11
 
 
 def replay(ck, path):
